@@ -218,6 +218,10 @@ let spec input obs =
           not (ok 0 "" ents))
         (Stdlib.List.concat_map (fun x -> if starts "views:" x then split_on '/' (after "views:" x) else []) sc.h.extras) in
     if bad_view <> None then "FAIL reader-saw-invalid-chain " ^ (match bad_view with Some v -> v | None -> "") else
+    (* the reader's locator builds (realised, carried in the case line): each must have completed with known hashes *)
+    let bad_loc = Stdlib.List.find_opt (fun l -> l <> "ok" && l <> "")
+        (Stdlib.List.concat_map (fun x -> if starts "locs:" x then split_on '/' (after "locs:" x) else []) sc.h.extras) in
+    if bad_loc <> None then "FAIL reader-locator-build-failed " ^ (match bad_loc with Some v -> v | None -> "") else
     let want_ca = Stdlib.String.concat "," (ca_expected sc) in
     if cas <> want_ca then Printf.sprintf "FAIL reader-common-ancestor-wrong got %s want %s" cas want_ca else
     let ev_bad = Stdlib.List.filter (fun e -> match split_on '=' e with
